@@ -9,7 +9,7 @@ by enumerations / sentinels / scales / text / comm state is decided by C10-C13, 
 from __future__ import annotations
 from ..domains import IntSet
 from ..spec import itu
-from .common import flatten, unwrap_message, sources, strip_wrappers, last
+from .common import flatten, unwrap_message, sources, strip_wrappers, last, inline_flag
 
 
 def infer_shape(struct, flat, outcome):
@@ -159,6 +159,14 @@ def check_field(I, chk, cfg, struct, path, term, exp, outcome, flag_leaves):
     core, ws = strip_wrappers(term)
     signed = k0 in ("lon", "lat", "lon10", "lat10")
     want = ("sext" if signed else "bits", off, w)
+    if k0 == "flag" and inline_flag(term) is not None:
+        # the flag computed in the message parser itself (`bits == 1`, nom's bits::complete::bool)
+        src, table = inline_flag(term)
+        if src != want:
+            return bad("wrong source bits")
+        chk.ob(table == {0: False, 1: True}, "C04/flag-inline/%s.%s/%r" % (struct, path, table),
+               "%s.%s [%s]: flag is not 0->false, 1->true: %r" % (struct, path, cfg, table))
+        return chk.ob(True, sample={"field": struct + "." + path, "bits": [off, w], "via": ["inline comparison"]})
     if core != want:
         # sentinel branch of an inlined Option: ('none',) under a guard on the right bits
         if term == ("none",) and (("bits", off, w) in outcome.guard or ("sext", off, w) in outcome.guard):
